@@ -295,13 +295,16 @@ def g_convert(rng, ragged):
 
 @form('filldown', ragged='rect')
 def g_filldown(rng, ragged):
-    t = _table(rng, False, pool=[None, None, 1, 'a', '', 0])
-    return {'table': t, 'fields': rng.choice([None, None, _spec(rng, t[0], allow_dup=False)]), 'missing': rng.choice([None, None, '', 0])}
+    m = rng.choice([None, None, '', 0, 'NA', -999, -999.0, (None,)])
+    t = _table(rng, False, pool=[None, None, 1, 'a', '', 0] + ([m, m] if m not in (None, '', 0) else []) + ([-999] if m == -999.0 else []))
+    return {'table': t, 'fields': rng.choice([None, None, _spec(rng, t[0], allow_dup=False)]), 'missing': m}
 
 
 @form('fillright', ragged='exact')
 def g_fillright(rng, ragged):
-    return {'table': _table(rng, ragged, pool=[None, None, 1, 'a', '', 0]), 'missing': rng.choice([None, None, '', 0]), 'left': rng.random() < 0.5}
+    m = rng.choice([None, None, '', 0, 'NA', -999, -999.0, (None,)])
+    return {'table': _table(rng, ragged, pool=[None, None, 1, 'a', '', 0] + ([m, m] if m not in (None, '', 0) else []) + ([-999] if m == -999.0 else [])),
+            'missing': m, 'left': rng.random() < 0.5}
 
 
 @form('fieldmap')
@@ -340,7 +343,7 @@ RULE = ('cases = (transform form, table, arguments); %d forms covering cut, cuto
         'namedtuples / columns accessors; seeded random tables of 0-5 rows x 1-4 fields, ragged rows (40 %% of cases where the form tolerates them), '
         'duplicate field names where resolution is by the index/name rule, field selection by name / index / mixed, negative and out-of-range '
         'insertion indices. Non-trivial: >= 2 data rows. Distinct = SHA-1 of the case.' % len(FORMS))
-REQUIRED = ['views-read-twice'] + ['form:' + f for f in FORMS] + ['ragged-judged', 'duplicate-names-judged', 'frame-condition-used', 'exact-comparison-used',
+REQUIRED = ['views-read-twice', 'marker-equal-but-not-identical'] + ['form:' + f for f in FORMS] + ['ragged-judged', 'duplicate-names-judged', 'frame-condition-used', 'exact-comparison-used',
                                            'negative-or-out-of-range-insertion-index', 'cat:repeated-field-name-in-a-later-table',
                                            'fieldmap:suffix-notation-two-views']
 
@@ -772,7 +775,9 @@ def j_filldown(case, ctx, table, hdr, rows, tabs, frame):
             else:
                 fill[i] = r[i]
         exp.append(tuple(o))
-    kw = {'missing': missing} if missing is not None else {}
+    kw = {'missing': util.fresh(missing)} if missing is not None else {}     # the caller's marker equals the cells, it is not the same object
+    if missing is not None and util.fresh(missing) is not missing:
+        ctx.seen('marker-equal-but-not-identical')
     got = _run(lambda: petl.filldown(table, *(fields or []), **kw))
     return _report(got, exp, 'filldown', case)
 
@@ -786,7 +791,7 @@ def j_fillright(case, ctx, table, hdr, rows, tabs, frame):
             if o[i] == missing and o[i - 1] != missing:
                 o[i] = o[i - 1]
         exp.append(tuple(reversed(o)) if left else tuple(o))
-    kw = {'missing': missing} if missing is not None else {}
+    kw = {'missing': util.fresh(missing)} if missing is not None else {}
     fn = petl.fillleft if left else petl.fillright
     return _report(_run(lambda: fn(table, **kw)), exp, 'fillleft' if left else 'fillright', case)
 
